@@ -123,7 +123,7 @@ Definition res_bool (r : option res) : option bool :=
 (* a live, launched, registered connection with p (the one p's router would use) *)
 Definition live_conn (s : state) (p : nat) : option nat :=
   find (fun c => match conns s c with
-                 | Some x => (cpeer x =? p) && alive x && negb (lclosed x) &&
+                 | Some x => (cpeer x =? p) && alive x && negb (lclosed x) && negb (sink x) &&
                              match loop x with LRun => true | _ => false end
                  | None => false
                  end) (table s p).
@@ -205,6 +205,7 @@ Definition exec (x : xstate) (o : op) : xstate * option bool * bool :=
       | None => (x, None, true)
       end
   | OCrashSending p =>
+      if negb (listening s p) then (x, None, true) else
       match step s (ACrash p) with
       | Some s1 =>
           match step s1 (AAcceptClosing code_fixed_F11 p) with
